@@ -108,6 +108,20 @@ func scenarioCorpus() []scenario {
 			k.W.Write("dir/b.txt", []byte("b2\n"))
 			k.W.Goit("add", "dir/b.txt")
 		}, fixed("commit", "-m", "on dev")},
+		{"commit-on-branch-with-250-byte-name", func(k *Walker) {
+			// a branch name close to the file-name limit (the temporary file's name is longer still);
+			// if the branch cannot be created the scenario degrades to a commit on main
+			k.Init()
+			commitBase(k)
+			k.W.Goit("switch", "-c", strings.Repeat("n", 250))
+			k.W.Write("a.txt", []byte("a-long\n"))
+			k.W.Goit("add", "a.txt")
+		}, fixed("commit", "-m", "on a long branch")},
+		{"reset-on-branch-with-240-byte-name", func(k *Walker) {
+			k.Init()
+			twoCommits(k)
+			k.W.Goit("switch", "-c", strings.Repeat("m", 240))
+		}, fixed("reset", "--soft", "HEAD@{1}")},
 		{"commit-emptied", func(k *Walker) {
 			k.Init()
 			commitBase(k)
